@@ -260,7 +260,7 @@ def diff_diag(text, text2):
 
 def plan(tier, seed):
     quick = tier == "quick"
-    return {"nshards": 16, "params": {"soft_s": 1500 if quick else 5400, "nprograms": 20 if quick else 240, "script_len": 8 if quick else 16}, "hard_timeout_s": 2700 if quick else 9000}
+    return {"nshards": 16, "params": {"soft_s": 1500 if quick else 5400, "nprograms": 20 if quick else 80, "script_len": 8 if quick else 12}, "hard_timeout_s": 2700 if quick else 9000}
 
 
 
